@@ -18,7 +18,7 @@ LIMIT_MS = 5000
 STACK_MIB = 8
 JOBS = 8
 
-GARBAGE = {"quick": 30000, "thorough": 1000000}
+GARBAGE = {"quick": 15000, "thorough": 1000000}
 # Trace_Cost handles a few thousand events per second; every family event, every event that is not
 # ok/err and this many of the others go through it per TLC run (the remainder is validated in further
 # TLC runs of the same size in the thorough tier, see _validate_all)
@@ -148,7 +148,7 @@ def run(prop, tier):
         if mc_cases is not None and not os.environ.get("VERIF_C03_NOMC"):
             t1 = time.time()
             try:
-                path = mc_cases(wd, tier)
+                path = mc_cases(wd, tier, light=(tier == "quick"))
             except Exception as e:      # that engine is under construction; its inputs are a bonus here
                 C.log("C03: docs.mc_cases not usable (%s); skipped" % e)
                 path = None
